@@ -267,15 +267,74 @@ class Result:
         self.dist[k] = self.dist.get(k, 0) + v
 
 
+# --------------------------------------------------------------------------------------------------
+# input variants: the properties quantify over "all data"; every generated case whose data is a 1-D array `x` is also run,
+# for a share of the cases, (a) at very small / very large amplitude (powers of two: exact, so exact-mode model cases
+# stay exact) and (b) as a non-contiguous view of the same sample values (positive and negative strides).  A module
+# opts kinds out with NO_VARY = {"kind", ...} (e.g. kinds whose other parameters depend on the amplitude).
+
+AMPS = [2.0 ** -30, 2.0 ** 17, 2.0 ** -40, 2.0 ** 23]
+
+
+def vary(mod, cases, tier):
+    skip = getattr(mod, "NO_VARY", set())
+    every = getattr(mod, "VARY_EVERY", 6 if tier == "quick" else 4)
+    out = list(cases)
+    cnt = {}
+    for kind, params in cases:
+        x = params.get("x")
+        if kind in skip or kind == "single" or not isinstance(x, np.ndarray) or x.ndim != 1 or x.size < 2:
+            continue
+        if x.dtype not in (np.float64, np.complex128) or params.get("variant"):
+            continue
+        c = cnt[kind] = cnt.get(kind, 0) + 1
+        if c % every:
+            continue
+        w = (c // every) % (len(AMPS) + 2)
+        q = dict(params)
+        if w < len(AMPS):
+            q["x"] = x * AMPS[w]
+            if isinstance(q.get("y"), np.ndarray):
+                q["y"] = q["y"] * AMPS[w]
+            q["variant"] = "amp:2^%d" % int(round(np.log2(AMPS[w])))
+        else:
+            q["variant"] = "strided:+2" if w == len(AMPS) else "strided:-1"
+        out.append((kind, q))
+    return out
+
+
+def materialize(params):
+    """the parameters handed to the implementation / oracle / model: strided variants get their non-contiguous views here
+    (replay files store plain arrays plus the variant tag)"""
+    v = params.get("variant") if isinstance(params, dict) else None
+    if not v or not v.startswith("strided"):
+        return params
+    q = dict(params)
+    for k in ("x", "y"):
+        a = q.get(k)
+        if isinstance(a, np.ndarray) and a.ndim == 1:
+            if v == "strided:+2":
+                buf = np.empty(2 * a.size, dtype=a.dtype)
+                buf[1::2] = 7.25e3          # neighbouring memory holds other (finite) numbers
+                buf[::2] = a
+                q[k] = buf[::2]
+            else:
+                q[k] = a[::-1].copy()[::-1]
+    return q
+
+
 def run_cases(mod, cases, res, tier):
     """cases: list of (kind, params).  For each: oracle on the real code, and implementation vs model."""
     kinds = mod.KINDS
     reqs = []   # (case index, mode, line)
     impl_out = {}
-    for idx, (kind, params) in enumerate(cases):
+    for idx, (kind, params0) in enumerate(cases):
         spec = kinds[kind]
+        params = materialize(params0)
         res.n_cases += 1
         res.count("kind:" + kind)
+        if params0.get("variant"):
+            res.count("variant:" + params0["variant"].split(":")[0])
         key = spec.get("key", lambda p: json.dumps(to_jsonable(p), sort_keys=True)[:400])(params)
         if spec.get("nontrivial", lambda p: True)(params):
             res.keys.add((kind, key))
@@ -293,14 +352,14 @@ def run_cases(mod, cases, res, tier):
                 if os.environ.get("VERIF_DEBUG"):
                     traceback.print_exc()
             for f in fails:
-                res.failures.append({"kind": kind, "params": params, "what": f, "source": "oracle"})
+                res.failures.append({"kind": kind, "params": params0, "what": f, "source": "oracle"})
         # implementation vs model
         if "model" in spec:
             try:
                 r = spec["model"](params)
             except Exception as e:
                 r = None
-                res.failures.append({"kind": kind, "params": params, "source": "correspondence",
+                res.failures.append({"kind": kind, "params": params0, "source": "correspondence",
                                      "what": "harness could not build the model request: %r" % (e,)})
             if r is not None:
                 mode, line = r
@@ -434,6 +493,7 @@ def main(argv):
         n_corpus = len(cases)
         res.count("corpus", n_corpus)
         cases += list(mod.gen(rng, nrng, tier))
+        cases = vary(mod, cases, tier)
     if not driver_ok:
         # the model cannot be executed: oracle only, and the broken build is reported below
         for k in mod.KINDS.values():
